@@ -163,7 +163,7 @@ func plant(t *rapid.T, set *ymodel.Set) string {
 	addDev := func(path string, dv ...*ymodel.Deviate) {
 		d.Deviations = append(d.Deviations, &ymodel.Deviation{Path: path, Deviates: dv})
 	}
-	switch rapid.SampledFrom([]string{"target-removed-earlier", "missing-target", "add-default-exists", "delete-default-absent", "delete-default-different", "delete-bound-different", "bounds-on-non-list", "unresolvable-type", "unknown-kind"}).Draw(t, "fault") {
+	switch rapid.SampledFrom([]string{"target-removed-earlier", "below-removed-ancestor", "missing-target", "add-default-exists", "delete-default-absent", "delete-default-different", "delete-bound-different", "bounds-on-non-list", "unresolvable-type", "unknown-kind"}).Draw(t, "fault") {
 	case "target-removed-earlier":
 		// two deviation statements with the same path: the first removes the node, the second finds none
 		untouched := func(x schema.Target) bool {
@@ -183,6 +183,46 @@ func plant(t *rapid.T, set *ymodel.Set) string {
 			addDev(tg.Path, &ymodel.Deviate{Kind: "not-supported"})
 			addDev(tg.Path, &ymodel.Deviate{Kind: rapid.SampledFrom([]string{"add", "replace"}).Draw(t, "second-deviate"), Units: "late"})
 			return "target-removed-earlier"
+		}
+	case "below-removed-ancestor":
+		// a node is deviated (or not), then an ancestor of it is removed, then the node is deviated under the very
+		// same path text: the last deviation has no target any more
+		clear := func(path string) bool {
+			for _, m := range set.Modules {
+				for _, dv := range m.Deviations {
+					if dv.Path == path || strings.HasPrefix(path, dv.Path+"/") || strings.HasPrefix(dv.Path, path+"/") {
+						return false
+					}
+				}
+			}
+			return true
+		}
+		var anc *schema.Target
+		tg := pick(func(x schema.Target) bool {
+			if x.Node.Kind != ymodel.KLeaf && x.Node.Kind != ymodel.KLeafList || !clear(x.Path) {
+				return false
+			}
+			for i := range all {
+				if !all[i].InOp && strings.HasPrefix(x.Path, all[i].Path+"/") && clear(all[i].Path) {
+					return true
+				}
+			}
+			return false
+		}, "below-removed")
+		if tg != nil {
+			var ancs []int
+			for i := range all {
+				if !all[i].InOp && strings.HasPrefix(tg.Path, all[i].Path+"/") && clear(all[i].Path) {
+					ancs = append(ancs, i)
+				}
+			}
+			anc = &all[ancs[rapid.IntRange(0, len(ancs)-1).Draw(t, "removed-ancestor")]]
+			if rapid.Bool().Draw(t, "deviated-before") {
+				addDev(tg.Path, &ymodel.Deviate{Kind: rapid.SampledFrom([]string{"add", "replace"}).Draw(t, "first-deviate"), Units: "early"})
+			}
+			addDev(anc.Path, &ymodel.Deviate{Kind: "not-supported"})
+			addDev(tg.Path, &ymodel.Deviate{Kind: rapid.SampledFrom([]string{"add", "replace"}).Draw(t, "second-deviate"), Units: "late"})
+			return "below-removed-ancestor"
 		}
 	case "missing-target":
 		if tg := pick(func(schema.Target) bool { return true }, "near"); tg != nil {
